@@ -137,4 +137,15 @@ example : (run (toyConfig 2 3 [] false) (init (toyConfig 2 3 [] false)) exampleT
 example : ((serialRun (toyConfig 2 3 [] false)).written 0, (serialRun (toyConfig 2 3 [] false)).stats) = ([0, 0, 1, 0, 2, 0], 7) := by
   decide
 
+/-- the hypotheses are satisfiable: natural numbers under addition (the statistics of `toyConfig`) -/
+theorem natAdd_isCommMonoid : IsCommMonoid (fun a b : Nat => a + b) 0 :=
+  ⟨Nat.add_assoc, Nat.add_comm, Nat.zero_add⟩
+
+/-- the main theorem instantiated: EVERY schedule of 2 workers over 3 chunks that ends normally has written chunks 0, 1, 2 in
+    order and merged the statistics of all three -/
+example (s : State Nat) (hr : Reachable (toyConfig 2 3 [] false) s) (hok : s.outcome = .ok) :
+    (s.writers 0).written = [0, 0, 1, 0, 2, 0] ∧ s.mstats = 7 := by
+  obtain ⟨_, h2, h3, _⟩ := parallel_equals_serial (toyConfig 2 3 [] false) (by decide) natAdd_isCommMonoid hr hok
+  refine ⟨(h2 0).trans (by decide), h3.trans (by decide)⟩
+
 end Cutadapt.C06
